@@ -24,6 +24,8 @@ type c11Scope struct {
 	path   []string
 	object bool // scope of an object (false: root / predefined scope)
 	table  int
+	ord    int  // position in the program (name counter when it was written)
+	bank   bool // unit of a BankField
 }
 
 type c11Method struct {
@@ -31,6 +33,7 @@ type c11Method struct {
 	argc  int
 	table int
 	node  *c11Node
+	ord   int // position in the program (name counter when it was written)
 }
 
 type c11Node struct {
@@ -51,10 +54,13 @@ type c11Gen struct {
 	names     []c11Scope // Name objects (path, table) usable as references
 	regions   []c11Scope
 	units     []c11Scope // field units (index / data / bank registers of later IndexField / BankField)
+	objs      []c11Scope // every object that is no method and no Name (targets of name references)
+	ixShadow  []c11Scope // pairs (scope an IndexField is written in, name of its index register): finding D10
 	table     int
 	budget    int
 	maxDepth  int
 	scopeLvl  bool // expressions outside a method body: no ArgN / LocalN
+	inBufSize bool // generating the size term of a Buffer
 	fills     []func()
 }
 
@@ -81,10 +87,16 @@ const c11NameChars = "ABCDEFGHIJKLMNOPQRSTUVWXYZ0123456789_"
 func (g *c11Gen) fresh() string {
 	g.ctr++
 	n := g.ctr
-	b := []byte{"ABCDEFGHIJKLMNOPQRSTUVWXYZ"[g.rng.Intn(26)], 0, 0, 0}
+	// LeadNameChar := 'A'-'Z' | '_' ; the boundaries of the range are drawn more often
+	b := []byte{"ABCDEFGHIJKLMNOPQRSTUVWXYZ_AZ__"[g.rng.Intn(31)], 0, 0, 0}
 	for i := 3; i >= 1; i-- {
 		b[i] = c11NameChars[n%len(c11NameChars)]
 		n /= len(c11NameChars)
+	}
+	for _, pre := range c11Predef { // never a predefined scope's name (that would be a re-used name, finding D3)
+		if string(b) == pre {
+			return g.fresh()
+		}
 	}
 	// uniqueness comes from the counter in the last three characters; the first one is free
 	return string(b)
@@ -156,16 +168,24 @@ func (g *c11Gen) declForm(cur []string, late bool) (*c11Form, []string) {
 }
 
 // Scope directive to an existing scope, written from cur
-func (g *c11Gen) scopeForm(cur []string) (*c11Form, []string) {
+func (g *c11Gen) scopeForm(cur []string, late bool) (*c11Form, []string) {
+	// a ^ may be written where the current scope is a predefined one (D1) that is not under a late directive (D1b)
+	caretOK := len(cur) == 1 && !g.isObjectScope(cur) && !(g.open["D1b"] && late)
 	for try := 0; try < 8; try++ {
 		s := g.scopes[g.rng.Intn(len(g.scopes))]
 		if len(s.path) == 0 {
 			if g.open["D8"] {
 				continue
 			}
+			if caretOK && g.rng.Intn(2) == 0 {
+				return &c11Form{Carets: 1, Segs: []string{}}, s.path // Scope(^)
+			}
 			return &c11Form{Abs: true, Segs: []string{}}, s.path
 		}
 		last := s.path[len(s.path)-1]
+		if caretOK && len(s.path) == 1 && g.rng.Intn(3) == 0 {
+			return &c11Form{Carets: 1, Segs: []string{last}}, s.path // Scope(^X)
+		}
 		switch g.rng.Intn(3) {
 		case 0: // single segment, found by the search rule: its parent scope encloses cur
 			if c11HasPrefix(cur, s.path[:len(s.path)-1]) {
@@ -202,10 +222,17 @@ func (g *c11Gen) constTerm() c11Term {
 		return c11Term{T: "qword", N: []int{[]int{0, 0x8000, 0xffff, g.rng.Intn(65536)}[g.rng.Intn(4)], g.rng.Intn(65536), g.rng.Intn(65536), g.rng.Intn(65536)}}
 	default:
 		n := g.rng.Intn(13)
+		if g.rng.Intn(12) == 0 {
+			n = []int{62, 63, 64, 300, 4100}[g.rng.Intn(5)]
+		}
 		b := make([]byte, n)
-		const chars = " !#$%&'()*+,-./0123456789:;<=>?@ABCXYZ[]^_`abcxyz{|}~"
-		for i := range b {
-			b[i] = chars[g.rng.Intn(len(chars))]
+		for i := range b { // AsciiChar := 0x01 - 0x7f (quotes, backslash, control characters and DEL included)
+			switch g.rng.Intn(6) {
+			case 0:
+				b[i] = []byte{0x01, 0x09, 0x0a, 0x1f, '"', '\\', 0x7e, 0x7f, '<', '&'}[g.rng.Intn(10)]
+			default:
+				b[i] = byte(0x20 + g.rng.Intn(0x5f))
+			}
 		}
 		return c11Term{T: "string", S: string(b)}
 	}
@@ -213,13 +240,21 @@ func (g *c11Gen) constTerm() c11Term {
 
 func (g *c11Gen) bufferTerm() c11Term {
 	n := g.rng.Intn(9)
+	if g.rng.Intn(10) == 0 {
+		n = []int{61, 62, 63, 300, 4090, 5000}[g.rng.Intn(6)] // around the package-length width boundaries
+	}
 	bs := make([]int, n)
 	for i := range bs {
 		bs[i] = g.rng.Intn(256)
 	}
 	ln := c11Term{T: "byte", N: []int{n + g.rng.Intn(4)}}
-	if g.rng.Intn(4) == 0 {
+	switch k := g.rng.Intn(8); {
+	case k < 2 || n+3 > 255:
 		ln = c11Term{T: "word", N: []int{n + g.rng.Intn(300)}}
+	case k == 2:
+		ln = c11Term{T: "dword", N: []int{g.rng.Intn(3), n + g.rng.Intn(300)}}
+	case k == 3 && n <= 1:
+		ln = c11Term{T: []string{"zero", "one"}[n]}
 	}
 	return c11Term{T: "buffer", A: []c11Term{ln}, N: bs}
 }
@@ -232,7 +267,7 @@ func (g *c11Gen) valueTerm(depth int) c11Term {
 		return g.bufferTerm()
 	default:
 		n := g.rng.Intn(5)
-		p := c11Term{T: "package", N: []int{n}, A: []c11Term{}}
+		p := c11Term{T: "package", N: []int{n + []int{0, 0, 0, 1, 200}[g.rng.Intn(5)]}, A: []c11Term{}}
 		for i := 0; i < n; i++ {
 			p.A = append(p.A, g.valueTerm(depth+1))
 		}
@@ -263,7 +298,7 @@ func (g *c11Gen) level(cur []string, depth int, late, off bool, n int) []*c11Nod
 			nd.kids = g.level(p, depth+1, late, off || g.displaced[c11Key(p)], g.rng.Intn(6))
 			out = append(out, nd)
 		case k < 28 && depth < g.maxDepth: // Scope directive
-			f, p := g.scopeForm(cur)
+			f, p := g.scopeForm(cur, late)
 			if f == nil {
 				continue
 			}
@@ -285,7 +320,7 @@ func (g *c11Gen) level(cur []string, depth int, late, off bool, n int) []*c11Nod
 			flags := argc | g.rng.Intn(2)<<3 | g.rng.Intn(16)<<4
 			g.declared(cur, p, off)
 			nd := &c11Node{tok: c11Tok{K: "method", F: f, W: g.width(), Flags: flags}, blk: true}
-			g.methods = append(g.methods, &c11Method{path: p, argc: argc, table: g.table, node: nd})
+			g.methods = append(g.methods, &c11Method{path: p, argc: argc, table: g.table, node: nd, ord: g.ctr})
 			out = append(out, nd)
 		case k < 62: // Name
 			if g.rng.Intn(4) == 0 {
@@ -296,11 +331,15 @@ func (g *c11Gen) level(cur []string, depth int, late, off bool, n int) []*c11Nod
 				g.declared(cur, p, off)
 				g.names = append(g.names, c11Scope{path: p, table: g.table})
 				nd := &c11Node{tok: c11Tok{K: "decl", Kind: "Name", F: &c11Form{Segs: []string{seg}}, Args: []c11Term{g.constTerm()}}}
-				m := &c11Method{path: p, table: g.table}
+				m := &c11Method{path: p, table: g.table, ord: g.ctr}
 				g.fills = append(g.fills, func() {
-					v := g.scopeExpr(m)
+					var v c11Term
 					if g.rng.Intn(4) == 0 {
-						v = c11Term{T: "buffer", A: []c11Term{v}, N: []int{1, 2, 3}}
+						g.inBufSize = true
+						v = c11Term{T: "buffer", A: []c11Term{g.scopeExpr(m)}, N: []int{1, 2, 3}}
+						g.inBufSize = false
+					} else {
+						v = g.scopeExpr(m)
 					}
 					nd.tok.Args = []c11Term{v}
 				})
@@ -319,10 +358,11 @@ func (g *c11Gen) level(cur []string, depth int, late, off bool, n int) []*c11Nod
 			if g.rng.Intn(2) == 0 {
 				off = c11Term{T: "word", N: []int{g.rng.Intn(65536)}}
 			}
-			rn := &c11Node{tok: c11Tok{K: "decl", Kind: "OpRegion", F: f, Args: []c11Term{{T: "byte", N: []int{g.rng.Intn(10)}}, off, {T: "byte", N: []int{g.rng.Intn(256)}}}}}
+			rn := &c11Node{tok: c11Tok{K: "decl", Kind: "OpRegion", F: f, Args: []c11Term{{T: "byte", N: []int{g.rng.Intn(10)}}, off,
+				[]c11Term{{T: "byte", N: []int{g.rng.Intn(256)}}, {T: "word", N: []int{g.rng.Intn(65536)}}, {T: "dword", N: []int{g.rng.Intn(65536), g.rng.Intn(65536)}}, {T: "one"}}[g.rng.Intn(4)]}}}
 			if len(f.Segs) == 1 && !f.Abs && f.Carets == 0 && g.rng.Intn(4) == 0 {
 				// length = invocation (last operand); offset = invocation without arguments or a name (D12)
-				m := &c11Method{path: p, table: g.table}
+				m := &c11Method{path: p, table: g.table, ord: g.ctr}
 				g.fills = append(g.fills, func() {
 					rn.tok.Args[2] = g.scopeExpr(m)
 					if o := g.scopeExpr(m); o.T != "call" || len(o.A) == 0 {
@@ -354,6 +394,7 @@ func (g *c11Gen) level(cur []string, depth int, late, off bool, n int) []*c11Nod
 }
 
 func (g *c11Gen) declared(cur, p []string, off bool) {
+	g.objs = append(g.objs, c11Scope{path: p, table: g.table})
 	if off || c11Key(p[:len(p)-1]) != c11Key(cur) {
 		g.displaced[c11Key(p)] = true
 	}
@@ -372,6 +413,17 @@ func (g *c11Gen) field(cur []string, late bool) *c11Node {
 	}
 	pick := func(vis []c11Scope) c11Scope { return vis[len(vis)-1-g.rng.Intn(c11Min(len(vis), 4))] }
 	one := func(s c11Scope) *c11Form { return &c11Form{Segs: []string{s.path[len(s.path)-1]}} }
+	// a container's region / data / bank name as written: mostly the plain segment, else absolute or with a ^
+	// (the index register of an IndexField only as a plain segment: finding D11)
+	form := func(sc c11Scope) *c11Form {
+		switch k := g.rng.Intn(8); {
+		case k == 0:
+			return &c11Form{Abs: true, Segs: sc.path}
+		case k == 1 && len(cur) == 1 && len(sc.path) == 1 && !g.isObjectScope(cur) && !(g.open["D1b"] && late):
+			return &c11Form{Carets: 1, Segs: sc.path}
+		}
+		return one(sc)
+	}
 	regs, units := visible(g.regions), visible(g.units)
 	t := c11Tok{K: "field", Kind: "Field", W: g.width(), Flags: g.rng.Intn(6) | g.rng.Intn(2)<<4 | g.rng.Intn(3)<<5}
 	switch k := g.rng.Intn(10); {
@@ -383,7 +435,8 @@ func (g *c11Gen) field(cur []string, late bool) *c11Node {
 				d = units[1]
 			}
 		}
-		t.Kind, t.F, t.G = "IndexField", one(i), one(d)
+		t.Kind, t.F, t.G = "IndexField", one(i), form(d)
+		g.ixShadow = append(g.ixShadow, c11Scope{path: cur, table: g.table}, c11Scope{path: []string{i.path[len(i.path)-1]}})
 	case k < 4 && len(units) >= 1 && len(regs) >= 1:
 		v := c11Term{T: "byte", N: []int{g.rng.Intn(256)}}
 		switch g.rng.Intn(3) {
@@ -392,15 +445,15 @@ func (g *c11Gen) field(cur []string, late bool) *c11Node {
 		case 1:
 			v = c11Term{T: "dword", N: []int{g.rng.Intn(65536), g.rng.Intn(65536)}}
 		}
-		t.Kind, t.F, t.G, t.V = "BankField", one(pick(regs)), one(pick(units)), []c11Term{v}
+		t.Kind, t.F, t.G, t.V = "BankField", form(pick(regs)), form(pick(units)), []c11Term{v}
 	default:
 		if len(regs) == 0 {
 			return nil
 		}
-		t.F = one(pick(regs))
+		t.F = form(pick(regs))
 	}
 	for i, n := 0, g.rng.Intn(6); i < n; i++ {
-		bits := []int{1, 3, 8, 16, 32, 63, 64, 100, 4095, 4096, 70000}[g.rng.Intn(11)]
+		bits := []int{1, 3, 8, 16, 32, 63, 64, 100, 4095, 4096, 70000, 1<<20 - 1, 1<<20 + 5, 1 << 27}[g.rng.Intn(14)]
 		switch g.rng.Intn(6) {
 		case 0:
 			t.Els = append(t.Els, c11El{E: "skip", Bits: bits, Wl: g.width()})
@@ -410,6 +463,7 @@ func (g *c11Gen) field(cur []string, late bool) *c11Node {
 			nm := g.fresh()
 			t.Els = append(t.Els, c11El{E: "unit", Name: nm, Bits: bits, Wl: g.width()})
 			g.units = append(g.units, c11Scope{path: c11Cat(cur, nm), table: g.table})
+			g.objs = append(g.objs, c11Scope{path: c11Cat(cur, nm), table: g.table, ord: g.ctr, bank: t.Kind == "BankField"})
 		}
 	}
 	return &c11Node{tok: t}
@@ -446,6 +500,16 @@ func (g *c11Gen) expr(m *c11Method, depth int, cs []*c11Method) c11Term {
 	}
 	switch {
 	case k < 3:
+		if g.rng.Intn(6) == 0 && !(g.inBufSize && g.open["D14"]) { // deferred Buffer as an operand; its size may itself be an invocation
+			b := g.bufferTerm()
+			if len(cs) > 0 && depth < 2 && g.rng.Intn(3) == 0 {
+				was := g.inBufSize
+				g.inBufSize = true // no Buffer inside the size term of a Buffer (finding D14)
+				b.A = []c11Term{g.call(m, depth+2, cs)}
+				g.inBufSize = was
+			}
+			return b
+		}
 		return g.constTerm()
 	case (k == 3 || k == 4) && g.scopeLvl:
 		return g.constTerm()
@@ -455,9 +519,29 @@ func (g *c11Gen) expr(m *c11Method, depth int, cs []*c11Method) c11Term {
 		return c11Term{T: "local", N: []int{g.rng.Intn(8)}}
 	case k == 5 || k == 6:
 		var vis []c11Scope
-		for _, n := range g.names {
+		pool := g.names
+		if g.rng.Intn(3) == 0 {
+			pool = g.objs // devices, regions, field units, mutexes, events, processors, ... (any object but a method)
+		}
+		isMethod := map[string]bool{}
+		for _, c := range g.methods {
+			isMethod[c11Key(c.path)] = true
+		}
+	nextName:
+		for _, n := range pool {
+			if isMethod[c11Key(n.path)] {
+				continue // a method's name is an invocation, not a reference
+			}
+			if g.inBufSize && g.open["D15"] && n.bank && n.table == m.table {
+				continue // Buffer size naming a unit of a BankField of the same table (finding D15)
+			}
 			par := n.path[:len(n.path)-1]
 			if n.table <= m.table && (c11HasPrefix(m.path, par) || len(par) == 0 || (len(par) == 1 && !g.isObjectScope(par))) {
+				for i := 0; g.open["D10"] && i+1 < len(g.ixShadow); i += 2 {
+					if g.ixShadow[i+1].path[0] == n.path[len(n.path)-1] && (c11HasPrefix(m.path, g.ixShadow[i].path) || c11Key(g.ixShadow[i].path) == c11Key(par)) {
+						continue nextName
+					}
+				}
 				vis = append(vis, n)
 			}
 		}
@@ -518,6 +602,10 @@ func (g *c11Gen) stmts(m *c11Method, depth int, cs []*c11Method, n int) []c11Tok
 				out = append(out, g.stmts(m, depth+1, cs, g.rng.Intn(3))...)
 				out = append(out, c11Tok{K: "close"})
 			}
+		case k == 7 && depth < 3 && !g.open["D7"]: // While (the whole class is excluded while finding D6/D7 is open)
+			out = append(out, c11Tok{K: "while", X: []c11Term{g.expr(m, 1, cs)}, W: g.width()})
+			out = append(out, g.stmts(m, depth+1, cs, 1+g.rng.Intn(3))...)
+			out = append(out, c11Tok{K: "close"})
 		default:
 			if len(cs) > 0 {
 				out = append(out, c11Tok{K: "stmt", Op: "call", X: []c11Term{g.call(m, 0, cs)}})
@@ -597,8 +685,30 @@ func c11RandomProgram(seed int64, open map[string]bool) []c11Tok {
 		g.displaced = map[string]bool{}
 		g.budget = total / ntab
 		var top []*c11Node
+		if ntab > 1 && g.rng.Intn(12) == 0 {
+			tables = append(tables, top) // a table without any object
+			continue
+		}
 		if k := g.rng.Intn(10); k < 3 {
 			top = append(top, g.chain(k == 0)...)
+		}
+		if g.rng.Intn(15) == 0 { // a tower of nested objects far deeper than the usual nesting
+			cur := []string{}
+			var inner *c11Node
+			for d := 8 + g.rng.Intn(40); d > 0; d-- {
+				seg := g.fresh()
+				cur = c11Cat(cur, seg)
+				g.scopes = append(g.scopes, c11Scope{path: cur, object: true, table: g.table})
+				g.objs = append(g.objs, c11Scope{path: cur, table: g.table})
+				nd := &c11Node{tok: c11Tok{K: "open", Kind: "Device", F: &c11Form{Segs: []string{seg}}, W: g.width()}, blk: true}
+				if inner == nil {
+					top = append(top, nd)
+				} else {
+					inner.kids = append(inner.kids, nd)
+				}
+				inner = nd
+			}
+			inner.kids = g.level(cur, g.maxDepth-1, false, false, 3)
 		}
 		for g.budget > 0 {
 			top = append(top, g.level(nil, 0, false, false, 2+g.rng.Intn(8))...)
@@ -642,6 +752,22 @@ func TestVerifC11Random(t *testing.T) {
 		p := c11Prog{ID: 1000001 + i, Raw: raw}
 		if err := json.Unmarshal(raw, &p.Toks); err != nil { // the same decoding path as TLC-made programs
 			t.Fatal(fmt.Errorf("generator wrote tokens it cannot read back: %v", err))
+		}
+		progs = append(progs, p)
+	}
+	if n > 0 {
+		// one fixed program per run whose Device is longer than 2^20 bytes: the only way to a 4-byte package
+		// length with a non-zero top byte (a string keeps the token stream small)
+		big := strings.Repeat("firefly ", 1<<17+5)
+		one := func(s string) *c11Form { return &c11Form{Segs: []string{s}} }
+		toks := []c11Tok{{K: "open", Kind: "Device", F: one("BIG0"), W: 1},
+			{K: "decl", Kind: "Name", F: one("STR0"), Args: []c11Term{{T: "string", S: big}}},
+			{K: "decl", Kind: "Name", F: one("AFT0"), Args: []c11Term{{T: "byte", N: []int{7}}}},
+			{K: "close"}, {K: "decl", Kind: "Name", F: one("AFT1"), Args: []c11Term{{T: "one"}}}, {K: "endtable"}}
+		raw, _ := json.Marshal(toks)
+		p := c11Prog{ID: 1000001 + n, Raw: raw}
+		if err := json.Unmarshal(raw, &p.Toks); err != nil {
+			t.Fatal(err)
 		}
 		progs = append(progs, p)
 	}
